@@ -7,6 +7,7 @@ namespace Zeno.Model.Pause
 open Zeno
 
 def okShapes (F : Facts) : Bool :=
+  F.subscribeSerialised && F.subscribeSignalsWhenPaused &&
   F.pauseChBuffered1 && F.resumeChUnbuffered && F.unsubscribeDeletesThenCloses && F.pauseCasFalseTrueFirst &&
   F.pauseSendNonBlocking && F.resumeCollectsThenClears && F.resumeHandlesClosed &&
   F.preprocessorSubscribesAndDefersUnsubscribe && F.archiverSubscribesAndDefersUnsubscribe &&
@@ -587,13 +588,159 @@ theorem inv_pauseSend (F : Facts) (s s' : S) (k : Nat) (h : Inv s) (hs : step F 
           · exact Or.inr (Or.inr hb)
   · cases hs
 
+/-! #### subscribers that join later (`subscribe`) -/
+
+/-- every subscriber a pause still has to signal is registered -/
+def Bnd (s : S) : Prop := ∀ i ∈ s.pauses.flatten, i < s.n
+
+theorem bnd_init (n : Nat) : Bnd (S.init n) := by intro i hi; simp [S.init] at hi
+
+theorem mem_flatten_dropEmpty {l : List (List Nat)} {i : Nat} (h : i ∈ (dropEmpty l).flatten) : i ∈ l.flatten := by
+  rw [flatten_dropEmpty] at h; exact h
+
+theorem mem_flatten_set {L : List (List Nat)} {k i : Nat} {x : Nat} {rest : List Nat} (hk : L[k]? = some (x :: rest))
+    (h : i ∈ (L.set k rest).flatten) : i ∈ L.flatten := by
+  rw [List.mem_flatten] at h ⊢
+  obtain ⟨l, hl, hil⟩ := h
+  rcases List.mem_or_eq_of_mem_set hl with hl' | hl'
+  · exact ⟨l, hl', hil⟩
+  · subst hl'
+    exact ⟨x :: l, List.mem_of_getElem? hk, List.mem_cons_of_mem _ hil⟩
+
+theorem bnd_step (F : Facts) (s s' : S) (a : Act) (h : Bnd s) (hs : step F s a = some s') : Bnd s' := by
+  cases a with
+  | pauseCall =>
+    simp only [step] at hs
+    split at hs
+    · cases hs; exact h
+    · cases hs
+      intro i hi
+      have hi := mem_flatten_dropEmpty hi
+      rw [List.flatten_append, List.mem_append] at hi
+      rcases hi with hi | hi
+      · exact h i hi
+      · simp at hi; exact live_lt s i ((mem_liveIdx s i).mp hi)
+  | resumeCall =>
+    simp only [step] at hs
+    split at hs
+    · cases hs; exact h
+    · cases hs; unfold startResume; split <;> exact h
+  | stopCall => simp only [step] at hs; cases hs; exact h
+  | subscribe =>
+    simp only [step] at hs
+    split at hs
+    · split at hs
+      · cases hs; intro i hi; exact Nat.lt_succ_of_lt (h i hi)
+      · cases hs
+    · cases hs
+  | pauseSend k =>
+    simp only [step] at hs
+    split at hs
+    · rename_i i rest hk
+      cases hs
+      by_cases hl : (s.sub i).live = true
+      · simp only [hl, if_true]
+        intro j hj
+        have hj' : j ∈ (dropEmpty (s.pauses.set k rest)).flatten := by simpa [S.setSub] using hj
+        have := h j (mem_flatten_set hk (mem_flatten_dropEmpty hj'))
+        simpa [S.setSub] using this
+      · simp only [hl, if_false]
+        intro j hj
+        exact h j (mem_flatten_set hk (mem_flatten_dropEmpty hj))
+    · cases hs
+  | resumeRecv k i =>
+    simp only [step] at hs
+    split at hs
+    · split at hs
+      · split at hs
+        · cases hs; intro j hj; simpa [S.setSub] using h j (by simpa [S.setSub] using hj)
+        · split at hs
+          · cases hs; exact h
+          · cases hs
+      · cases hs
+    · cases hs
+  | resumeFinish k =>
+    simp only [step] at hs
+    split at hs
+    · cases hs; exact h
+    · cases hs
+  | waiterProceed =>
+    simp only [step] at hs
+    split at hs
+    · cases hs; unfold startResume; split <;> exact h
+    · cases hs
+  | takeToken i =>
+    simp only [step] at hs
+    split at hs
+    · cases hs; intro j hj; simpa [S.setSub] using h j (by simpa [S.setSub] using hj)
+    · cases hs
+  | exit i =>
+    simp only [step] at hs
+    split at hs
+    · cases hs; intro j hj; simpa [S.setSub] using h j (by simpa [S.setSub] using hj)
+    · cases hs
+
+theorem inv_subscribe (F : Facts) (s s' : S) (h : Inv s) (hb : Bnd s) (hs : step F s .subscribe = some s') : Inv s' := by
+  simp only [step] at hs
+  split at hs
+  · split at hs
+    · rename_i hF hre
+      cases hs
+      have hr : s.resumes = [] := by simpa using hre
+      -- the state after the step
+      generalize hs' : ({ s with n := s.n + 1, subs := fun j => if j = s.n then { st := W.running, token := s.paused } else s.subs j } : S) = t
+      have hp : t.paused = s.paused := by subst hs'; rfl
+      have hpa : t.pauses = s.pauses := by subst hs'; rfl
+      have hre' : t.resumes = s.resumes := by subst hs'; rfl
+      have hold : ∀ i, i ≠ s.n → t.sub i = s.sub i := by
+        intro i hi; subst hs'
+        unfold S.sub
+        by_cases h1 : i < s.n
+        · have h2 : i < s.n + 1 := by omega
+          simp [h1, h2, hi]
+        · have h2 : ¬ i < s.n + 1 := by omega
+          simp [h1, h2]
+      have hnew : t.sub s.n = { st := .running, token := s.paused } := by
+        subst hs'; unfold S.sub; simp
+      have hnl : s.live s.n = false := by unfold S.live S.sub Sub.live; simp
+      have hnf : s.n ∉ s.pauses.flatten := fun hm => Nat.lt_irrefl _ (hb _ hm)
+      have hlive : ∀ i, i ≠ s.n → t.live i = s.live i := by intro i hi; unfold S.live; rw [hold i hi]
+      have hbusy : ∀ i, i ≠ s.n → (busy t i ↔ busy s i) := by
+        intro i hi; unfold busy; rw [hold i hi, hpa]
+      have hbn : busy t s.n ↔ s.paused = true := by
+        unfold busy; rw [hnew, hpa]; simp [hnf]
+      refine ⟨by rw [hpa]; exact h.nodup, by rw [hpa]; exact h.noempty, ?_, ?_, by rw [hre']; exact h.res, ?_, ?_⟩
+      · intro i hi
+        by_cases hin : i = s.n
+        · subst hin
+          rw [hnew, hpa]
+          exact ⟨fun hm => absurd hm hnf, fun _ => by simp⟩
+        · rw [hold i hin, hpa]; exact h.excl i (by rw [← hlive i hin]; exact hi)
+      · intro hpf
+        rw [hp] at hpf
+        refine ⟨by rw [hre']; exact (h.unp hpf).1, ?_⟩
+        intro i hi
+        by_cases hin : i = s.n
+        · subst hin; rw [hbn]; simp [hpf]
+        · rw [hbusy i hin]; exact (h.unp hpf).2 i (by rw [← hlive i hin]; exact hi)
+      · intro hpt _ i hi
+        rw [hp] at hpt
+        by_cases hin : i = s.n
+        · subst hin; rw [hbn]; exact hpt
+        · rw [hbusy i hin]; exact h.p0 hpt hr i (by rw [← hlive i hin]; exact hi)
+      · intro _ w hw
+        rw [hre', hr] at hw; cases hw
+    · cases hs
+  · cases hs
+
 /-- every action keeps the invariant -/
-theorem inv_step (F : Facts) (hg : guarded F = true) (s s' : S) (a : Act) (h : Inv s) (hs : step F s a = some s') :
+theorem inv_step (F : Facts) (hg : guarded F = true) (s s' : S) (a : Act) (h : Inv s) (hb : Bnd s) (hs : step F s a = some s') :
     Inv s' := by
   cases a with
   | pauseCall => exact inv_pauseCall F s s' h hs
   | resumeCall => exact inv_resumeCall F hg s s' h hs
   | stopCall => exact inv_stopCall F s s' h hs
+  | subscribe => exact inv_subscribe F s s' h hb hs
   | pauseSend k => exact inv_pauseSend F s s' k h hs
   | resumeRecv k i => exact inv_resumeRecv F s s' k i h hs
   | resumeFinish k => exact inv_resumeFinish F s s' k h hs
@@ -601,15 +748,18 @@ theorem inv_step (F : Facts) (hg : guarded F = true) (s s' : S) (a : Act) (h : I
   | takeToken i => exact inv_takeToken F s s' i h hs
   | exit i => exact inv_exit F s s' i h hs
 
-/-- states reachable from `n` registered subscribers by any sequence of enabled actions -/
+/-- states reachable from `n` registered subscribers by any sequence of enabled actions (further workers may subscribe on the way) -/
 inductive Reachable (F : Facts) (n : Nat) : S → Prop
   | init : Reachable F n (S.init n)
   | step (s s' : S) (a : Act) : Reachable F n s → step F s a = some s' → Reachable F n s'
 
-theorem reachable_inv (F : Facts) (hg : guarded F = true) (n : Nat) (s : S) (h : Reachable F n s) : Inv s := by
+theorem reachable_inv_bnd (F : Facts) (hg : guarded F = true) (n : Nat) (s : S) (h : Reachable F n s) : Inv s ∧ Bnd s := by
   induction h with
-  | init => exact inv_init n
-  | step s s' a _ hs ih => exact inv_step F hg s s' a ih hs
+  | init => exact ⟨inv_init n, bnd_init n⟩
+  | step s s' a _ hs ih => exact ⟨inv_step F hg s s' a ih.1 ih.2 hs, bnd_step F s s' a ih.2 hs⟩
+
+theorem reachable_inv (F : Facts) (hg : guarded F = true) (n : Nat) (s : S) (h : Reachable F n s) : Inv s :=
+  (reachable_inv_bnd F hg n s h).1
 
 /-- nothing internal can happen any more -/
 def Quiescent (F : Facts) (s : S) : Prop := ∀ a, a.internal = true → step F s a = none
